@@ -446,13 +446,16 @@ CALNS = "urn:ietf:params:xml:ns:caldav"
 CARDNS = "urn:ietf:params:xml:ns:carddav"
 
 
-def _etags_of(impl, resp, base):
-    """{member name: symbolic etag or status} from a multistatus body."""
+def _etags_of(impl, resp, base, data_tag=None, bodies=None, view=""):
+    """{member name: symbolic etag or status} from a multistatus body; with `data_tag`, the data
+    served next to an ETag must be the bytes GET serves under that ETag (modulo the CRLF
+    normalisation of XML)"""
     ms = parse_multistatus(resp.body) if resp.status == 207 else None
     if not ms:
         return None, None
     out = {}
     basep = urllib.parse.unquote(base)
+    norm = lambda b: b.replace(b"\r\n", b"\n")
     for it in ms[0]:
         path = urllib.parse.unquote(urllib.parse.urlsplit(it["href"] or "").path)
         if path.rstrip("/") == basep.rstrip("/"):
@@ -463,6 +466,11 @@ def _etags_of(impl, resp, base):
             continue
         et = it["props"].get(DAV + "getetag")
         out[name] = impl.sym_etag(et[1].text) if et and et[0] == "200" else "?none"
+        if data_tag and bodies is not None:
+            d = it["props"].get(data_tag)
+            if d and d[0] == "200" and name in bodies and bodies[name][0] == (et[1].text if et else None):
+                if norm((d[1].text or "").encode("utf-8")) != norm(bodies[name][1]):
+                    impl.notes.append("C02:view-%s-serves-other-bytes-under-the-etag-of %r" % (view, name))
     return out, ms[1]
 
 
@@ -484,16 +492,22 @@ def views(impl, cpath, kind):
     ns = CALNS if kind == "calendar" else CARDNS
     pre = "calendar" if kind == "calendar" else "addressbook"
     data = "calendar-data" if kind == "calendar" else "address-data"
+    bodies = {}
+    for n in names:
+        g = impl.srv.request("GET", base + urllib.parse.quote(n), {})
+        if g.status == 200:
+            bodies[n] = (g.header("ETag"), g.body)
+    data_tag = "{%s}%s" % (ns, data)
     hrefs = "".join("<D:href>%s</D:href>" % (base + urllib.parse.quote(n)) for n in names)
     body = ('<?xml version="1.0"?><X:%s-multiget xmlns:D="DAV:" xmlns:X="%s"><D:prop><D:getetag/><X:%s/></D:prop>%s'
             '</X:%s-multiget>' % (pre, ns, data, hrefs, pre)).encode()
     r = impl.srv.request("REPORT", base, hdr, body)
-    res["multiget"], _ = _etags_of(impl, r, base)
+    res["multiget"], _ = _etags_of(impl, r, base, data_tag, bodies, "multiget")
     flt = '<X:filter><X:comp-filter name="VCALENDAR"/></X:filter>' if kind == "calendar" else "<X:filter/>"
-    body = ('<?xml version="1.0"?><X:%s-query xmlns:D="DAV:" xmlns:X="%s"><D:prop><D:getetag/></D:prop>%s</X:%s-query>'
-            % (pre, ns, flt, pre)).encode()
+    body = ('<?xml version="1.0"?><X:%s-query xmlns:D="DAV:" xmlns:X="%s"><D:prop><D:getetag/><X:%s/></D:prop>%s</X:%s-query>'
+            % (pre, ns, data, flt, pre)).encode()
     r = impl.srv.request("REPORT", base, hdr, body)
-    res["query"], _ = _etags_of(impl, r, base)
+    res["query"], _ = _etags_of(impl, r, base, data_tag, bodies, "query")
     body = (b'<?xml version="1.0"?><D:sync-collection xmlns:D="DAV:"><D:sync-token/><D:sync-level>1</D:sync-level>'
             b'<D:prop><D:getetag/></D:prop></D:sync-collection>')
     r = impl.srv.request("REPORT", base, hdr, body)
@@ -574,6 +588,8 @@ def execute_http(frontend, prefix, template, toks, attrs, audit_paths, colls=(CA
                     return urllib.parse.unquote(e).strip('"')
         return None
 
+    rawtags, generation = {}, {}
+
     def audit():
         if check_views:
             for cp, kind in ((CAL, "calendar"), (BOOK, "addressbook")):
@@ -598,6 +614,16 @@ def execute_http(frontend, prefix, template, toks, attrs, audit_paths, colls=(CA
             if check_tags:
                 obs, sha = impl.tags(cp)
                 lines.append("TAGS %s | %s" % (enc(cp), obs))
+                if sha is not None:
+                    # no request of these histories changes metadata: within one incarnation of a
+                    # collection the tag is a function of the members, whatever was read in between
+                    key = (cp, generation.get(cp, 0), lines[-2].split(" | ", 1)[1])
+                    if rawtags.setdefault(key, sha) != sha:
+                        impl.notes.append("C08:same-members-different-tag %s: %s then %s for %s" % (
+                            cp, rawtags[key], sha, key[2][:200]))
+                    obs2, sha2 = impl.tags(cp)
+                    if sha2 != sha:
+                        impl.notes.append("C08:tag-changed-between-two-reads %s: %s then %s" % (cp, sha, sha2))
                 if sha is not None and obs.startswith("tags =") and not obs.startswith("tags =?"):
                     issued.setdefault(cp, [])
                     if all(s != sha for s, _ in issued[cp]):
@@ -638,6 +664,7 @@ def execute_http(frontend, prefix, template, toks, attrs, audit_paths, colls=(CA
                 lines.append("DELETE %s %s | %s" % (enc(path), enc(im), obs))
                 if obs == "deleted" and path in known_colls:
                     known_colls.remove(path)
+                    generation[path] = generation.get(path, 0) + 1
             elif kind in ("MKCOL", "MKCALENDAR"):
                 _, path = op
                 obs = impl.mk(kind, path)
@@ -713,7 +740,7 @@ def compare_http(lines):
     return dis, viol
 
 
-NAMES = {CAL: ["a.ics", "b.ics", "c d.ics", "release.github.ics"], BOOK: ["k.vcf", "team.gitlab.vcf"]}
+NAMES = {CAL: ["a.ics", "b.ics", "c d.ics", "release.github.ics", ".draft.ics"], BOOK: ["k.vcf", "team.gitlab.vcf"]}
 
 
 def gen_http_template(rng, toks, length, profile="mixed"):
@@ -723,6 +750,13 @@ def gen_http_template(rng, toks, length, profile="mixed"):
     bad = [toks.tok(b) for b in rng.sample(INVALID_ICAL, 2)]
     ops = []
     paths = [CAL + "/" + n for n in NAMES[CAL]] + [BOOK + "/" + n for n in NAMES[BOOK]]
+    if profile == "tags":
+        # a collection made by plain MKCOL (no type recorded) gets members too
+        ops.append(("MKCOL", "/user/extra"))
+        paths += ["/user/extra/e1.ics", "/user/extra/e2.ics", "/user/extra/e1.ics"]
+        # probe: a collection that becomes empty again has the tag it had when it was empty
+        ops += [("MKCOL", "/user/probe"), ("PUT", "/user/probe/p.ics", "text/calendar", icals[0], "none", "none"),
+                ("GET", "/user/probe/p.ics", "none"), ("DELETE", "/user/probe/p.ics", "none")]
     odd = [CAL + "/.git/z.ics", CAL + "/x/../a.ics", "/user/calendars/./calendar/b.ics", CAL + "//a.ics"]
     for _ in range(length):
         r = rng.random()
@@ -756,7 +790,7 @@ def gen_http_template(rng, toks, length, profile="mixed"):
             if profile in ("sync", "tags") and rng.random() < 0.8:
                 ops.append(("SYNC", CAL if rng.random() < 0.7 else BOOK,
                             rng.choice(["all", "all", "empty", "foreign", "malformed"])))
-            elif profile == "tags" and rng.random() < 0.9:
+            elif (profile == "tags" and rng.random() < 0.9) or (profile == "mixed" and rng.random() < 0.4):
                 # delete a whole collection and create it again at the same URL
                 ops.append(("DELETE", CAL, "none"))
                 ops.append(("MKCALENDAR", CAL))
@@ -764,7 +798,9 @@ def gen_http_template(rng, toks, length, profile="mixed"):
                 ops.append(("restart",))
         elif r < 0.93:
             ops.append(("POST", CAL if rng.random() < 0.6 else BOOK,
-                        "text/calendar" if rng.random() < 0.6 else "text/vcard",
+                        rng.choice(["text/calendar", "text/calendar", "text/calendar; charset=utf-8",
+                                    "text/calendar;charset=UTF-8; component=VEVENT"]) if rng.random() < 0.6 else
+                        rng.choice(["text/vcard", "text/vcard; charset=utf-8"]),
                         rng.choice(icals) if rng.random() < 0.6 else rng.choice(cards)))
         else:
             ops.append(("MKCOL" if rng.random() < 0.5 else "MKCALENDAR",
